@@ -33,7 +33,7 @@ ASSUMPTIONS = [
 ]
 TOLERANCES = {"point": "1e-9 * S(image)", "arc point": "(1e-9 + 1e-15 * (ratio * cond)^2) * S(image) + 2 * closure_gap(arc) * 2|M| * ratio * cond (closure gap: how far the arc misses its own stored end points, non-zero for scaled-up radii)"}
 KINDS = ["L", "Q", "C", "A"]
-MANDATORY_LABELS = {"quick": ["seg:%s x %s" % (k, m) for k in KINDS for m in gen.MATRIX_CLASSES] + ["shape:%s" % s for s in ("rect", "rrect", "circle", "ellipse", "line", "polyline", "polygon")] + ["path:prog", "path:parse", "path:subpath"]}
+MANDATORY_LABELS = {"quick": ["seg:%s x %s" % (k, m) for k in KINDS for m in gen.MATRIX_CLASSES] + ["shape:%s" % s for s in ("rect", "rrect", "circle", "ellipse", "line", "polyline", "polygon")] + ["path:prog", "path:parse", "path:append", "path:subpath"]}
 MANDATORY_LABELS["thorough"] = MANDATORY_LABELS["quick"]
 
 TS = [0.0, 0.125, 0.25, 1.0 / 3.0, 0.5, 0.7, 0.875, 1.0]
@@ -51,7 +51,7 @@ def decode_seg(d):
 
 def decode_path(d):
     segs = gen.path_segments(d, max_subpaths=3, max_segs=3)
-    return {"kind": "path", "segs": segs, "route": d.choice(["prog", "parse"]), "A": gen.matrix(d), "sub": d.below(4)}
+    return {"kind": "path", "segs": segs, "route": d.choice(["prog", "parse", "append"]), "A": gen.matrix(d), "sub": d.below(4)}
 
 
 def shape_params(d):
@@ -233,10 +233,26 @@ def check_path(case):
     A = case["A"]["m"]
     mA = lib.mk_matrix(A)
     o.label("path:%s" % case["route"], "mat:%s" % case["A"]["cls"])
-    if case["route"] == "prog":
-        p = lib.mk_path(case["segs"])
-    else:
-        p = se.Path(lib.path_text_of(case["segs"], "%r"))
+    def build():
+        if case["route"] == "prog":
+            return lib.mk_path(case["segs"])
+        if case["route"] == "append":
+            # assembled piece by piece with segments that have no start of their own: the path links them
+            b = se.Path()
+            for sg in case["segs"]:
+                if sg[0] == "M":
+                    b.append(se.Move(se.Point(*sg[1])))
+                elif sg[0] == "Z":
+                    b.append(se.Close())
+                else:
+                    x = lib.mk_segment(sg)
+                    if len(b):
+                        x.start = None
+                    b.append(x)
+            return b
+        return se.Path(lib.path_text_of(case["segs"], "%r"))
+
+    p = build()
     orig = [_copy.copy(s) for s in p]
     # abs(path * M)
     q = abs(p * mA)
@@ -253,15 +269,18 @@ def check_path(case):
     for a, b in zip(orig, p):
         if c17.snapshot([a]) != c17.snapshot([b]):
             return o.violation("path:operand-modified", "path * M changed the path")
-    # in place: *= then reify
-    r = _copy.copy(p)
-    r *= mA
-    r.reify()
-    for i, (a, b) in enumerate(zip(orig, r)):
-        bad = compare_seg(o, a, b, A, "path*=M;reify")
-        if bad is not None:
-            bad.detail = "segment %d: %s" % (i, bad.detail)
-            return bad
+    # in place: *= then reify - on a copy, and on a second instance built the same way (a copy would hide points that
+    # the construction left shared between neighbouring segments)
+    for what, r in (("copy(path)*=M;reify", _copy.copy(p)), ("path*=M;reify", build())):
+        r *= mA
+        r.reify()
+        if len(r) != len(orig):
+            return o.violation("path:segment-count", "%s: %d -> %d segments" % (what, len(orig), len(r)))
+        for i, (a, b) in enumerate(zip(orig, r)):
+            bad = compare_seg(o, a, b, A, what)
+            if bad is not None:
+                bad.detail = "segment %d: %s" % (i, bad.detail)
+                return bad
     # lazily transformed segments
     lazy = (p * mA).segments(transformed=True)
     for i, (a, b) in enumerate(zip(orig, lazy)):
